@@ -216,13 +216,20 @@ func cmdFuzz(args []string) {
 	only := fs.String("only", "", "base64 input to assemble under every configuration (replay)")
 	fs.Parse(args)
 	w := newShardWriterMode(*out, 1, *from > 0)
+	leaks := 0
 	emit := func(id int, text []byte, ci int) {
+		if leaks >= 20 {
+			return // enough evidence; every further leaking case costs a settle loop
+		}
 		if *progress != "" {
 			os.WriteFile(*progress, []byte(fmt.Sprintf("%d %d %s", id, ci, base64.StdEncoding.EncodeToString(text))), 0644)
 		}
 		o := assembleWatched(text, fuzzConfigs[ci], 10*time.Second)
 		w.line(fmt.Sprintf(`{"ev":"fuzz","id":%d,"cfg":%d,"len":%d,"outcome":%q,"empty":%d,"codenil":%d,"us":%d,"leak":%d,"frame":%s,"msg":%s,"b64":%q}`,
 			id, ci, len(text), o.outcome, o.empty, o.codenil, o.us, o.leak, jq(o.frame), jq(o.msg), base64.StdEncoding.EncodeToString(text)))
+		if o.leak > 0 {
+			leaks++
+		}
 		if o.outcome == "hung" {
 			w.close()
 			os.Exit(3) // a spinning goroutine cannot be stopped: the driver restarts after this case
